@@ -5358,6 +5358,9 @@ class PyCdlib:
                     num_bytes_to_remove += parent.get_data_length()
                     if parent.ptr is not None:
                         num_bytes_to_remove += self._remove_from_ptr_size(parent.ptr)
+                    # The relocation directory may have a Rock Ridge
+                    # continuation entry of its own (a long name).
+                    num_bytes_to_remove += self._remove_rr_ce_entry(parent)
 
                     if parent is self._rr_moved_record:
                         # The relocation directory is gone; the next
